@@ -112,3 +112,15 @@ Lemma consuming_examples :
   consuming [58; 37; 115] = 1 /\ consuming [64; 37; 114; 37; 37] = 1 /\
   consuming [37; 53; 46; 49; 102; 37; 100] = 1 /\ consuming [37; 46; 102; 32; 37] = 0 /\ consuming [58] = 0.
 Proof. repeat split; vm_compute; reflexivity. Qed.
+
+(* the witness of C07.F45: ":srv 005 test CHANTYPES :are supported" then "PING :abc".  do005 stores None for the
+   token without value; the message path goes on and the PING is answered *)
+Definition w_isupport : list recv :=
+  [RData [58; 115; 114; 118; 32; 48; 48; 53; 32; 116; 101; 115; 116; 32; 67; 72; 65; 78; 84; 89; 80; 69; 83; 32; 58; 97; 114;
+          101; 32; 115; 117; 112; 112; 111; 114; 116; 101; 100; 10];
+   RData [80; 73; 78; 71; 32; 58; 97; 98; 99; 10]].
+Lemma isupport_valueless_harmless vt :
+  let ms := run_reads unit vt dec0 h0 h0 [] w_isupport (init tt) in
+  i_chantypes (sup (fst (m_p ms))) = Some None /\ alive ms = true /\ escapes ms = [None; None] /\
+  sent (fst (m_p ms)) = [[97; 98; 99]].
+Proof. cbv zeta. repeat split; vm_compute; reflexivity. Qed.
